@@ -84,6 +84,20 @@ func (p *Program) verifyFunc(key string, mode string) (u *Unit) {
 	e.topFrame = f
 	st := e.newState()
 	e.heapInit("alloc", "(Array Ref Bool)", 0)
+	e.memoCount = map[string]int{}
+	e.prog.memoSites(fn, false, map[*ssa.Function]bool{}, 0, e.memoCount)
+	for _, n := range e.memoCount {
+		if n > 1 {
+			e.memoUsed = true
+		}
+	}
+	if fc != nil {
+		for _, cl := range fc.Invs {
+			if strings.Contains(cl.Text, "built(") {
+				e.memoUsed = true
+			}
+		}
+	}
 	c := e.ctx
 	bind := func(v ssa.Value, name string) {
 		t := v.Type()
